@@ -317,6 +317,29 @@ def index_role(e, idxvar, valvar, listname):
     return None
 
 
+def _B3_view_stores(rep, flow):
+    """the re-embedding written as stores through the `.z` / `.x` views of a Pauli (`new.z[qubits] = key.z`): the
+    library keeps the phase unit of every Y factor in a third field that such stores do not touch - unless the function
+    also sets the phase, the embedded Pauli differs from the measured one by a power of i for every Y factor"""
+    def view_stores(g):
+        out = {}
+        for st in ast.walk(g.node):
+            if isinstance(st, ast.Assign) and len(st.targets) == 1:
+                t = st.targets[0]
+                if isinstance(t, ast.Subscript) and isinstance(t.value, ast.Attribute) and t.value.attr in ("z", "x") and isinstance(t.value.value, ast.Name) \
+                        and isinstance(st.value, ast.Attribute) and st.value.attr == t.value.attr:
+                    out.setdefault(t.value.value.id, {})[t.value.attr] = st
+        return {k: v for k, v in out.items() if set(v) == {"z", "x"}}
+    for g in _find_in_tomo(flow, lambda g: bool(view_stores(g))):
+        for name, sts in view_stores(g).items():
+            touches_phase = any(isinstance(a, ast.Attribute) and a.attr in ("phase", "_phase") and isinstance(a.value, ast.Name) and a.value.id == name and isinstance(a.ctx, ast.Store)
+                                for a in ast.walk(g.node))
+            touches_phase = touches_phase or any(isinstance(a, ast.AugAssign) and isinstance(a.target, ast.Attribute) and a.target.attr in ("phase", "_phase") for a in ast.walk(g.node))
+            if not touches_phase:
+                st = sts["z"]
+                rep.finding("B3", f"{A_FITTER}:reembed-phase", f"{pyfacts.where(g, st)}: the m-qubit key is copied into the register Pauli through its `.z` and `.x` arrays only [{pyfacts.norm_stmt(st)}]; the library stores one phase unit per Y factor in a separate field that these stores leave at zero, so every key with a Y factor is embedded as a different (phase-shifted) operator")
+
+
 def B3_reembed(rep, flow: Flow):
     rep.rule("B3", "re-embedding: factor j of the m-qubit Pauli (position in the measured list) is written to register position qubits[j]", floor=1)
 
@@ -328,6 +351,7 @@ def B3_reembed(rep, flow: Flow):
         return False
     cands = _find_in_tomo(flow, has_reembed_loop)
     if not cands:
+        _B3_view_stores(rep, flow)
         raise AnalysisError(f"{TOMO}: no re-embedding loop (subscript store from a subscript inside a loop over the measured qubits) found (anchor vanished)")
     f = cands[0]
     n = 0
